@@ -5,6 +5,7 @@ import (
 	"fmt"
 	"os"
 	"path/filepath"
+	"runtime"
 	"sort"
 	"strconv"
 	"strings"
@@ -302,18 +303,18 @@ type idInfo struct {
 }
 
 type concRun struct {
-	c      *core.Ctx
-	h      *Handle
-	clock  int64
-	mu     sync.Mutex
-	ops    []porcupine.Operation
-	known  []idInfo // ids whose insert has returned
-	uniq   int64
-	qBase  *query.Query   // shared on purpose by all goroutines
-	cBase  query.Criteria // shared on purpose
-	invErr atomic.Value
+	c          *core.Ctx
+	h          *Handle
+	clock      int64
+	mu         sync.Mutex
+	ops        []porcupine.Operation
+	known      []idInfo // ids whose insert has returned
+	uniq       int64
+	qBase      *query.Query   // shared on purpose by all goroutines
+	cBase      query.Criteria // shared on purpose
+	invErr     atomic.Value
 	nConflicts int64
-	hotIDs []string // a few caller-supplied ids several clients try to insert
+	hotIDs     []string // a few caller-supplied ids several clients try to insert
 }
 
 func regexpQuote(s string) string {
@@ -484,7 +485,9 @@ func (cr *concRun) client(id int, r *gen.Rng, nops int, groups int64, wg *sync.W
 			}
 			in = cop{Kind: "replace", IDs: []string{k.id}, G: k.g, Tag: k.tag, Val: cr.nextVal()}
 			call := cr.tick()
-			err := Do(func() error { return db.ReplaceById("k", k.id, mkConcDoc(k.id, cdoc{g: k.g, p: in.Val, b: -1, tag: k.tag})) })
+			err := Do(func() error {
+				return db.ReplaceById("k", k.id, mkConcDoc(k.id, cdoc{g: k.g, p: in.Val, b: -1, tag: k.tag}))
+			})
 			out = cout{Class: classifyConc(err)}
 			cr.record(id, in, call, out)
 			cr.after(err, in)
@@ -952,4 +955,128 @@ func RunConcCatalog(c *core.Ctx) {
 	s.m.Colls[name] = mc
 	s.Audit("concurrent catalog operations")
 	c.Cell("conc-catalog|%s|clients%d|conflicts=%v", backendClass(backend), n, conflicts > 0)
+}
+
+// RunConcDisjoint: two goroutines run bulk operations, each on its OWN collection of one handle. Operations on
+// different collections commute, so each collection must end exactly as if its goroutine had run alone; any
+// state shared through the handle (buffers, caches) shows up as foreign or skipped documents.
+func RunConcDisjoint(c *core.Ctx) {
+	r := c.R
+	backend := gen.Pick(r, []string{BadgerMem, BadgerMem, BadgerDisk, BBolt})
+	h, err := Open(c, backend, "")
+	if err != nil {
+		c.Violate("open-error", "opening %s failed: %v", backend, err)
+		return
+	}
+	defer h.Destroy()
+	c.Backend = backend
+	h.MS.SetPerturb(mon.Perturb{On: true, Seed: r.U64(), Pct: gen.Pick(r, []int{20, 50})})
+	names := []string{"left", "right"}
+	sizes := []int{r.Range(20, 200), r.Range(20, 200)}
+	models := []*model.Coll{model.NewColl(), model.NewColl()}
+	for k, name := range names {
+		if err := h.DB.CreateCollection(name); err != nil {
+			c.Violate("setup", "%v", err)
+			return
+		}
+		docs := make([]*document.Document, sizes[k])
+		for i := range docs {
+			m := map[string]any{"_id": r.UUID(), "g": int64(i % 4), "v": int64(0), "side": name}
+			models[k].Docs[m["_id"].(string)] = m
+			docs[i] = model.NewDoc(m)
+		}
+		if err := h.DB.Insert(name, docs...); err != nil {
+			c.Violate("setup", "%v", err)
+			return
+		}
+		if r.Bool() {
+			h.DB.CreateIndex(name, "g")
+			models[k].Indexes["g"] = true
+		}
+	}
+	// one bulk operation beforehand, so that anything the handle keeps between operations has been used once
+	h.DB.Update(query.NewQuery("left").Where(query.Field("g").Eq(int64(0))), map[string]interface{}{"v": int64(-1)})
+	for _, d := range models[0].Docs {
+		if d["g"] == int64(0) {
+			d["v"] = int64(-1)
+		}
+	}
+	rounds := r.Range(3, 8)
+	var wg sync.WaitGroup
+	var panicMsg atomic.Value
+	var conflicts int64
+	for k := range names {
+		wg.Add(1)
+		rr := r.Fork()
+		k := k
+		go func() {
+			defer wg.Done()
+			name := names[k]
+			mc := models[k]
+			for i := 0; i < rounds; i++ {
+				core.Tick()
+				g := int64(rr.Intn(4))
+				val := int64(100*(k+1) + i)
+				del := rr.P(15)
+				for attempt := 0; attempt < 5; attempt++ {
+					var err error
+					q := query.NewQuery(name).Where(query.Field("g").Eq(g))
+					if del {
+						err = Do(func() error { return h.DB.Delete(q) })
+					} else {
+						err = Do(func() error {
+							return h.DB.UpdateFunc(q, func(d *document.Document) *document.Document {
+								runtime.Gosched()
+								n := d.Copy()
+								n.Set("v", val)
+								return n
+							})
+						})
+					}
+					if pe, ok := IsPanic(err); ok {
+						panicMsg.Store(fmt.Sprintf("%v\n%s", pe.Val, trim(pe.Stack, 20)))
+						return
+					}
+					if errors.Is(err, badger.ErrConflict) {
+						atomic.AddInt64(&conflicts, 1)
+						continue
+					}
+					if err != nil {
+						panicMsg.Store(fmt.Sprintf("bulk operation on %q failed: %v", name, err))
+						return
+					}
+					for id, d := range mc.Docs {
+						if d["g"] == g {
+							if del {
+								delete(mc.Docs, id)
+							} else {
+								d["v"] = val
+							}
+						}
+					}
+					break
+				}
+			}
+		}()
+	}
+	wg.Wait()
+	h.MS.SetPerturb(mon.Perturb{})
+	c.Eval(2 * rounds)
+	if v := panicMsg.Load(); v != nil {
+		c.Violate("conc:disjoint-error", "%s", v)
+		return
+	}
+	s := NewS(c, h)
+	for k, name := range names {
+		s.m.Colls[name] = models[k]
+	}
+	for _, name := range names {
+		if !s.CompareCollection(name, "conc:disjoint-collections", "concurrent bulk operations on two different collections") {
+			return
+		}
+	}
+	s.Audit("concurrent bulk operations on disjoint collections")
+	if !s.failed {
+		c.Cell("conc-disjoint|%s|rounds%d|conflicts=%v", backendClass(backend), rounds, conflicts > 0)
+	}
 }
